@@ -218,14 +218,27 @@ def existCreditFromTx (s : Store) (id : TxId) : Bool := s.credits.any (fun e => 
 def putPendIn (m : AMap.T (TxId × Nat) (List TxId)) (k : TxId × Nat) (spender : TxId) :=
   AMap.put m k ((AMap.get m k).getD [] ++ [spender])
 
+-- ------------------------------------------------------------------ loop helpers
+
+/-- `for i, a := range as { b, err = f(b, i, a); if err != nil { return err } }` -/
+def foldIdxM {α β : Type} (f : β → Nat → α → M β) : List α → Nat → β → M β
+  | [], _, b => pure b
+  | a :: as, i, b => do
+    let b' ← f b i a
+    foldIdxM f as (i + 1) b'
+
+/-- the same loop without error exits -/
+def foldIdx {α β : Type} (f : β → Nat → α → β) : List α → Nat → β → β
+  | [], _, b => b
+  | a :: as, i, b => foldIdx f as (i + 1) (f b i a)
+
+abbrev Bals := AMap.T Wid Nat
+
 -- ------------------------------------------------------------------ unmined side (utxostore.go)
 
-/-- insertUnminedInputs: only the relevant inputs -/
+/-- insertUnminedInputs: every input of the tx, relevant or not (as Rollback does) -/
 def insertUnminedInputs (s : Store) (tr : TxRec) : Store :=
-  tr.relIn.foldl (fun s rel =>
-    match tr.tx.ins[rel.index]? with
-    | some i => { s with pendIns := putPendIn s.pendIns (i.tx, i.idx) tr.tx.id }
-    | none => s) s
+  tr.tx.ins.foldl (fun s i => { s with pendIns := putPendIn s.pendIns (i.tx, i.idx) tr.tx.id }) s
 
 /-- deleteUnminedInputs: every input of the tx -/
 def deleteUnminedInputs (s : Store) (tx : Tx) : Store :=
@@ -234,37 +247,53 @@ def deleteUnminedInputs (s : Store) (tx : Tx) : Store :=
     | some (_ :: _) => { s with pendIns := AMap.erase s.pendIns (i.tx, i.idx) }
     | _ => s) s
 
+/-- removeUnminedInputsOf (removeRawUnminedInputSpender per input): take the tx out of the spender list
+    of each of its inputs; the entry goes away with its last spender, other spenders keep theirs -/
+def removeUnminedInputsOf (s : Store) (tx : Tx) : Store :=
+  tx.ins.foldl (fun s i =>
+    match AMap.get s.pendIns (i.tx, i.idx) with
+    | some (x :: xs) =>
+      let rest := (x :: xs).filter (fun sp => sp ≠ tx.id)
+      if rest.isEmpty then { s with pendIns := AMap.erase s.pendIns (i.tx, i.idx) }
+      else { s with pendIns := AMap.put s.pendIns (i.tx, i.idx) rest }
+    | _ => s) s
+
 def deleteUnminedCredits (s : Store) (tx : Tx) : Store :=
   (List.range tx.outs.length).foldl (fun s i => { s with pendCred := AMap.erase s.pendCred (tx.id, i) }) s
 
 /-- createGameHistory -/
 def gameOuts (tr : TxRec) : List Rel := tr.relOut.filter (fun r => r.out.cls.isStaking || r.out.cls.isBinding)
 
+/-- the unmined credit value written for a relevant output (valueUnminedCredit) -/
+def unminedCreditOf (rel : Rel) : Credit :=
+  { amt := rel.out.amt, spent := false, change := rel.change, cls := uclassOf rel.out.cls,
+    maturity := rel.out.cls.maturity, sh := rel.out.addr, spentBy := none }
+
+/-- addUnminedCredits, body of the first loop -/
+def addUnminedCredit (tr : TxRec) (s : Store) (rel : Rel) : M Store :=
+  if (AMap.get s.pendCred (tr.tx.id, rel.index)).isSome then throw .duplicate
+  else if (AMap.get s.unspent (rel.wallet, tr.tx.id, rel.index)).isSome then throw .duplicate
+  else pure { s with pendCred := AMap.put s.pendCred (tr.tx.id, rel.index) (unminedCreditOf rel) }
+
 /-- addUnminedCredits -/
 def addUnminedCredits (s : Store) (tr : TxRec) : M Store := do
-  let mut s := s
-  for rel in tr.relOut do
-    if (AMap.get s.pendCred (tr.tx.id, rel.index)).isSome then throw .duplicate
-    if (AMap.get s.unspent (rel.wallet, tr.tx.id, rel.index)).isSome then throw .duplicate
-    let c : Credit := { amt := rel.out.amt, spent := false, change := rel.change, cls := uclassOf rel.out.cls,
-                        maturity := rel.out.cls.maturity, sh := rel.out.addr, spentBy := none }
-    s := { s with pendCred := AMap.put s.pendCred (tr.tx.id, rel.index) c }
-  for rel in gameOuts tr do
-    s := { s with pendGame := AMap.put s.pendGame (rel.wallet, rel.out.cls.isBinding, tr.tx.id, rel.index) () }
-  pure s
+  let s ← tr.relOut.foldlM (addUnminedCredit tr) s
+  pure ((gameOuts tr).foldl (fun s rel =>
+    { s with pendGame := AMap.put s.pendGame (rel.wallet, rel.out.cls.isBinding, tr.tx.id, rel.index) () }) s)
 
-/-- removeUnminedGameHistory: NOTE the code builds the key with vout left at 0 (history.vout is never
-    assigned in the loop), so only the entry of output 0 can be deleted. Modelled as written. -/
+/-- removeUnminedGameHistory: the unmined history record of every staking / binding output that pays an
+    owned address (after the fix: keyed by the output's own index) -/
 def removeUnminedGameHistory (own : Own) (s : Store) (tx : Tx) : Store :=
-  tx.outs.foldl (fun s o =>
+  foldIdx (fun s i o =>
     if o.cls.isStaking || o.cls.isBinding then
       match AMap.get own o.addr with
-      | some (w, _) => { s with pendGame := AMap.erase s.pendGame (w, o.cls.isBinding, tx.id, 0) }
+      | some (w, _) => { s with pendGame := AMap.erase s.pendGame (w, o.cls.isBinding, tx.id, i) }
       | none => s
-    else s) s
+    else s) tx.outs 0 s
 
 /-- removeConflict (txstore.go): remove a pending tx and, recursively, pending spenders of its outputs.
-    `fuel` bounds the recursion depth (the pending set is a finite DAG; the driver passes its size + 1). -/
+    `fuel` bounds the recursion depth (the pending set is a finite DAG; callers pass its size + 1;
+    MW.Lemmas.LedgerPending shows that this is enough whenever the pending set is acyclic). -/
 def removeConflict (own : Own) : Nat → Store → Tx → Store
   | 0, s, _ => s
   | fuel + 1, s, tx =>
@@ -275,27 +304,32 @@ def removeConflict (own : Own) : Nat → Store → Tx → Store
         | some sptx => removeConflict own fuel s sptx
         | none => s) s
       { s with pendCred := AMap.erase s.pendCred (tx.id, i) }) s
-    let s := deleteUnminedInputs s tx
+    let s := removeUnminedInputsOf s tx
     let s := removeUnminedGameHistory own s tx
     { s with pending := AMap.erase s.pending tx.id }
 
-/-- removeDoubleSpends: pending transactions spending an input of the mined tx are conflicts -/
+/-- the pending spenders recorded under an outpoint are conflicts: remove each with its descendants -/
+def purgeSpenders (own : Own) (s : Store) (op : TxId × Nat) : Store :=
+  ((AMap.get s.pendIns op).getD []).foldl (fun s ds =>
+    match AMap.get s.pending ds with
+    | some dtx => removeConflict own (s.pending.length + 1) s dtx
+    | none => s) s
+
+/-- removeDoubleSpends: pending transactions spending an input of the mined tx — any input, wallet
+    coin or not — are conflicts -/
 def removeDoubleSpends (own : Own) (s : Store) (tr : TxRec) : Store :=
   let fuel := s.pending.length + 1
-  let s := tr.relIn.foldl (fun s rel =>
-    match tr.tx.ins[rel.index]? with
-    | some i =>
-      ((AMap.get s.pendIns (i.tx, i.idx)).getD []).foldl (fun s ds =>
-        match AMap.get s.pending ds with
-        | some dtx => removeConflict own fuel s dtx
-        | none => s) s
-    | none => s) s
+  let s := tr.tx.ins.foldl (fun s i =>
+    ((AMap.get s.pendIns (i.tx, i.idx)).getD []).foldl (fun s ds =>
+      match AMap.get s.pending ds with
+      | some dtx => removeConflict own fuel s dtx
+      | none => s) s) s
   deleteUnminedInputs s tr.tx
 
 /-- insertMemPoolTx + AddCredits(block = nil) -/
-def addRelevantUnmined (s : Store) (tr : TxRec) : M Store := do
+def addRelevantUnmined (s : Store) (tr : TxRec) : M Store :=
   if tr.tx.cb then throw (.other "coinbase unmined")
-  if (AMap.get s.pending tr.tx.id).isSome then
+  else if (AMap.get s.pending tr.tx.id).isSome then
     -- already there: insertMemPoolTx returns nil, then AddCredits → addUnminedCredits still runs
     if tr.relOut.isEmpty then pure s else addUnminedCredits s tr
   else
@@ -305,71 +339,108 @@ def addRelevantUnmined (s : Store) (tr : TxRec) : M Store := do
 
 -- ------------------------------------------------------------------ mined side
 
+/-- updateMinedBalance, loop body once every lookup has succeeded: mark the credit spent (spendCredit),
+    move the deposit record (withdrawGame), write the debit (putDebit), drop the unspent entry
+    (deleteRawUnspent), subtract the amount -/
+def spendApply (tr : TxRec) (blk : BlockMeta) (sb : Store × Bals) (rel : Rel) (i : Inp) (cblk : BlockMeta)
+    (c : Credit) : Store × Bals :=
+  let ck : CredKey := ⟨i.tx, cblk, i.idx⟩
+  let dk : CredKey := ⟨tr.tx.id, blk, rel.index⟩
+  let gk : GameKey := ⟨rel.wallet, rel.out.cls.isBinding, false, i.tx, cblk.height, i.idx⟩
+  ({ sb.1 with
+      credits := AMap.put sb.1.credits ck { c with spent := true, spentBy := some dk },
+      game := if rel.out.cls.isBinding || rel.out.cls.isStaking then
+                AMap.put (AMap.erase sb.1.game gk) { gk with withdrawn := true } ()
+              else sb.1.game,
+      debits := AMap.put sb.1.debits dk (c.amt, ck),
+      unspent := AMap.erase sb.1.unspent (rel.wallet, i.tx, i.idx) },
+   AMap.put sb.2 rel.wallet (getBal sb.2 rel.wallet - c.amt))
+
+/-- updateMinedBalance (txstore.go), body of the loop: spend the credit consumed by one relevant input -/
+def spendOne (tr : TxRec) (blk : BlockMeta) (sb : Store × Bals) (rel : Rel) : M (Store × Bals) :=
+  match tr.tx.ins[rel.index]? with
+  | none => throw (.other "input index")
+  | some i =>
+    match AMap.get sb.1.unspent (rel.wallet, i.tx, i.idx) with      -- existsUnspent
+    | none => throw .creditNotFound
+    | some cblk =>
+      match AMap.get sb.1.credits ⟨i.tx, cblk, i.idx⟩ with          -- spendCredit
+      | none => throw (.other "short credit value")
+      | some c =>
+        if c.spent then throw (.other "short v read")               -- requires the 45-byte (unspent) value
+        else if (rel.out.cls.isBinding || rel.out.cls.isStaking) &&
+            (AMap.get sb.1.game ⟨rel.wallet, rel.out.cls.isBinding, false, i.tx, cblk.height, i.idx⟩).isNone then
+          throw (.other "withdraw game not found")                  -- withdrawGame
+        else if getBal sb.2 rel.wallet < c.amt then throw (.other "balance underflow")
+        else pure (spendApply tr blk sb rel i cblk c)
+
 /-- updateMinedBalance (txstore.go): spend the credits consumed by the relevant inputs -/
-def updateMinedBalance (s : Store) (bals : AMap.T Wid Nat) (tr : TxRec) (blk : BlockMeta) :
-    M (Store × AMap.T Wid Nat) := do
-  let mut s := s
-  let mut bals := bals
-  for rel in tr.relIn do
-    let some i := tr.tx.ins[rel.index]? | throw (.other "input index")
-    let some cblk := AMap.get s.unspent (rel.wallet, i.tx, i.idx) | throw .creditNotFound
-    let ck : CredKey := ⟨i.tx, cblk, i.idx⟩
-    let some c := AMap.get s.credits ck | throw (.other "short credit value")
-    if c.spent then throw (.other "short v read")     -- spendCredit requires the 45-byte (unspent) value
-    let dk : CredKey := ⟨tr.tx.id, blk, rel.index⟩
-    s := { s with credits := AMap.put s.credits ck { c with spent := true, spentBy := some dk } }
-    if rel.out.cls.isBinding || rel.out.cls.isStaking then
-      let gk : GameKey := ⟨rel.wallet, rel.out.cls.isBinding, false, i.tx, cblk.height, i.idx⟩
-      if (AMap.get s.game gk).isNone then throw (.other "withdraw game not found")
-      s := { s with game := AMap.put (AMap.erase s.game gk) { gk with withdrawn := true } () }
-    s := { s with debits := AMap.put s.debits dk (c.amt, ck) }
-    s := { s with unspent := AMap.erase s.unspent (rel.wallet, i.tx, i.idx) }
-    if getBal bals rel.wallet < c.amt then throw (.other "balance underflow")
-    bals := AMap.put bals rel.wallet (getBal bals rel.wallet - c.amt)
-  pure (s, bals)
+def updateMinedBalance (s : Store) (bals : Bals) (tr : TxRec) (blk : BlockMeta) : M (Store × Bals) :=
+  tr.relIn.foldlM (spendOne tr blk) (s, bals)
+
+/-- insertMinedTx: block record (created or appended) and tx record -/
+def recordMinedTx (s : Store) (tr : TxRec) (blk : BlockMeta) : Store :=
+  { s with
+    blocks := match AMap.get s.blocks blk.height with
+      | none => AMap.put s.blocks blk.height (blk.hash, [tr.tx.id])
+      | some (h, txs) => AMap.put s.blocks blk.height (h, txs ++ [tr.tx.id]),
+    txrecs := AMap.put s.txrecs (tr.tx.id, blk) tr.loc }
+
+/-- insertMinedTx: the unmined version of a confirmed tx leaves the pending set -/
+def unpendMined (s : Store) (tx : Tx) : Store :=
+  if (AMap.get s.pending tx.id).isSome then
+    let s := deleteUnminedCredits s tx
+    { s with pending := AMap.erase s.pending tx.id }
+  else s
 
 /-- insertMinedTx -/
-def insertMinedTx (own : Own) (s : Store) (bals : AMap.T Wid Nat) (tr : TxRec) (blk : BlockMeta) :
-    M (Store × AMap.T Wid Nat × Bool) := do
-  if (AMap.get s.txrecs (tr.tx.id, blk)).isSome then return (s, bals, true)
-  let s := match AMap.get s.blocks blk.height with
-    | none => { s with blocks := AMap.put s.blocks blk.height (blk.hash, [tr.tx.id]) }
-    | some (h, txs) => { s with blocks := AMap.put s.blocks blk.height (h, txs ++ [tr.tx.id]) }
-  let s := { s with txrecs := AMap.put s.txrecs (tr.tx.id, blk) tr.loc }
-  let (s, bals) ← updateMinedBalance s bals tr blk
-  let s := if (AMap.get s.pending tr.tx.id).isSome then
-      let s := deleteUnminedCredits s tr.tx
-      { s with pending := AMap.erase s.pending tr.tx.id }
-    else s
-  pure (removeDoubleSpends own s tr, bals, false)
+def insertMinedTx (own : Own) (s : Store) (bals : Bals) (tr : TxRec) (blk : BlockMeta) :
+    M (Store × Bals × Bool) :=
+  if (AMap.get s.txrecs (tr.tx.id, blk)).isSome then pure (s, bals, true)
+  else do
+    let (s, bals) ← updateMinedBalance (recordMinedTx s tr blk) bals tr blk
+    pure (removeDoubleSpends own (unpendMined s tr.tx) tr, bals, false)
+
+/-- the credit value written for a relevant output of a mined tx (valueUnspentCredit); a coinbase output
+    matures like any coinbase AND keeps the lock of its own script, whichever is longer -/
+def minedCreditOf (p : Params) (cb : Bool) (rel : Rel) : Credit :=
+  { amt := rel.out.amt, spent := false, change := rel.change, cls := uclassOf rel.out.cls,
+    maturity := (if cb then max p.cbMaturity rel.out.cls.maturity else rel.out.cls.maturity) % 2^32,
+    sh := rel.out.addr, spentBy := none }
+
+/-- AddCredits (mined), body of the first loop after the duplicate check: address record, credit,
+    unspent entry, amount -/
+def creditApply (p : Params) (tr : TxRec) (blk : BlockMeta) (sb : Store × Bals) (rel : Rel) : Store × Bals :=
+  let ak := (rel.wallet, rel.out.cls.isStaking, rel.out.addr)
+  ({ sb.1 with
+      addrs := match AMap.get sb.1.addrs ak with
+        | some h => if h = 0 then AMap.put sb.1.addrs ak blk.height else sb.1.addrs
+        | none => AMap.put sb.1.addrs ak blk.height,
+      credits := AMap.put sb.1.credits ⟨tr.tx.id, blk, rel.index⟩ (minedCreditOf p tr.tx.cb rel),
+      unspent := AMap.put sb.1.unspent (rel.wallet, tr.tx.id, rel.index) blk },
+   AMap.put sb.2 rel.wallet (getBal sb.2 rel.wallet + rel.out.amt))
+
+/-- AddCredits (mined), body of the first loop -/
+def creditOne (p : Params) (tr : TxRec) (blk : BlockMeta) (sb : Store × Bals) (rel : Rel) : M (Store × Bals) :=
+  if (AMap.get sb.1.credits ⟨tr.tx.id, blk, rel.index⟩).isSome then throw .duplicate
+  else pure (creditApply p tr blk sb rel)
+
+/-- AddCredits (mined), second loop: the deposit history records -/
+def gameOne (tr : TxRec) (blk : BlockMeta) (s : Store) (rel : Rel) : Store :=
+  { s with
+    pendGame := AMap.erase s.pendGame (rel.wallet, rel.out.cls.isBinding, tr.tx.id, rel.index),
+    game := AMap.put s.game ⟨rel.wallet, rel.out.cls.isBinding, false, tr.tx.id, blk.height, rel.index⟩ () }
 
 /-- AddCredits for a mined tx -/
-def addCredits (p : Params) (s : Store) (bals : AMap.T Wid Nat) (tr : TxRec) (blk : BlockMeta) :
-    M (Store × AMap.T Wid Nat) := do
-  if tr.relOut.isEmpty then return (s, bals)
-  let mut s := s
-  let mut bals := bals
-  for rel in tr.relOut do
-    let maturity := if tr.tx.cb then p.cbMaturity else rel.out.cls.maturity
-    let ck : CredKey := ⟨tr.tx.id, blk, rel.index⟩
-    if (AMap.get s.credits ck).isSome then throw .duplicate
-    let ak := (rel.wallet, rel.out.cls.isStaking, rel.out.addr)
-    s := match AMap.get s.addrs ak with
-      | some h => if h = 0 then { s with addrs := AMap.put s.addrs ak blk.height } else s
-      | none => { s with addrs := AMap.put s.addrs ak blk.height }
-    let c : Credit := { amt := rel.out.amt, spent := false, change := rel.change, cls := uclassOf rel.out.cls,
-                        maturity := maturity % 2^32, sh := rel.out.addr, spentBy := none }
-    s := { s with credits := AMap.put s.credits ck c }
-    s := { s with unspent := AMap.put s.unspent (rel.wallet, tr.tx.id, rel.index) blk }
-    bals := AMap.put bals rel.wallet (getBal bals rel.wallet + rel.out.amt)
-  for rel in gameOuts tr do
-    s := { s with pendGame := AMap.erase s.pendGame (rel.wallet, rel.out.cls.isBinding, tr.tx.id, rel.index) }
-    s := { s with game := AMap.put s.game ⟨rel.wallet, rel.out.cls.isBinding, false, tr.tx.id, blk.height, rel.index⟩ () }
-  pure (s, bals)
+def addCredits (p : Params) (s : Store) (bals : Bals) (tr : TxRec) (blk : BlockMeta) : M (Store × Bals) :=
+  if tr.relOut.isEmpty then pure (s, bals)
+  else do
+    let (s, bals) ← tr.relOut.foldlM (creditOne p tr blk) (s, bals)
+    pure ((gameOuts tr).foldl (gameOne tr blk) s, bals)
 
 /-- AddRelevantTx for a mined tx: InsertTx then AddCredits (AddCredits runs even when the tx record existed) -/
-def addRelevantMined (p : Params) (own : Own) (s : Store) (bals : AMap.T Wid Nat) (tr : TxRec) (blk : BlockMeta) :
-    M (Store × AMap.T Wid Nat) := do
+def addRelevantMined (p : Params) (own : Own) (s : Store) (bals : Bals) (tr : TxRec) (blk : BlockMeta) :
+    M (Store × Bals) := do
   let (s, bals, _) ← insertMinedTx own s bals tr blk
   addCredits p s bals tr blk
 
@@ -385,89 +456,111 @@ structure Ctx where
 /-- result of looking up the previous transaction of an input -/
 inductive Prev | skip | found (t : Tx) | missing
 
-/-- filterTx (ntfnshandler.go), relevance part; `blk = none` for an unconfirmed transaction.
+/-- filterTx: where the previous transaction of an input comes from (the per-tx cache only avoids
+    repeated lookups): the current block, else – only if the store has a credit of that tx, for a mined
+    tx – the node's chain, else the pending set -/
+def prevOf (c : Ctx) (s : Store) (mined : Bool) (inBlk : List Tx) (id : TxId) : Prev :=
+  match (if mined then inBlk.find? (fun t => t.id = id) else none) with
+  | some t => .found t
+  | none =>
+    if mined && !existCreditFromTx s id then .skip
+    else match c.node.fetchTx id with
+      | some t => .found t
+      | none => match AMap.get s.pending id with
+        | some t => .found t
+        | none => .missing
+
+/-- filterTx, body of the TxIn loop -/
+def filterIn (c : Ctx) (s : Store) (mined : Bool) (inBlk : List Tx) (ready : List Wid)
+    (tr : TxRec) (cur : Nat) (i : Inp) : M TxRec :=
+  match prevOf c s mined inBlk i.tx with
+  | .skip => pure tr
+  | .missing => throw (if mined then .chainRevoked else .invalidTx)
+  | .found pt =>
+    match pt.outs[i.idx]? with
+    | none => throw .invalidTx
+    | some o =>
+      if o.cls = .raw then pure tr
+      else match AMap.get c.own o.addr with
+        | some (w, ch) =>
+          if ready.contains w then
+            pure { tr with hasBindingIn := o.cls.isBinding,
+                           relIn := tr.relIn ++ [{ index := cur, out := o, wallet := w, change := ch }] }
+          else pure tr
+        | none => pure tr
+
+/-- filterTx, body of the TxOut loop -/
+def filterOut (c : Ctx) (ready : List Wid) (tr : TxRec) (cur : Nat) (o : Out) : TxRec :=
+  if o.cls = .raw then tr
+  else match AMap.get c.own o.addr with
+    | some (w, ch) =>
+      if ready.contains w then
+        { tr with hasBindingOut := o.cls.isBinding,
+                  relOut := tr.relOut ++ [{ index := cur, out := o, wallet := w, change := ch }] }
+      else tr
+    | none => tr
+
+/-- filterTx (ntfnshandler.go), relevance part; `mined = false` for an unconfirmed transaction.
     `inBlk` = transactions of the current block seen so far, including this one (recInCurBlk). -/
 def filterTxRel (c : Ctx) (s : Store) (tx : Tx) (mined : Bool) (inBlk : List Tx) (ready : List Wid) :
     M (Option TxRec) := do
-  let mut tr : TxRec := { tx := tx }
-  if !tx.cb then
-    let mut idx := 0
-    for i in tx.ins do
-      let cur := idx
-      idx := idx + 1
-      -- previous transaction lookup (the per-tx cache only avoids repeated lookups)
-      let prev : Prev :=
-        match (if mined then inBlk.find? (fun t => t.id = i.tx) else none) with
-        | some t => .found t
-        | none =>
-          if mined && !existCreditFromTx s i.tx then .skip
-          else match c.node.fetchTx i.tx with
-            | some t => .found t
-            | none => match AMap.get s.pending i.tx with
-              | some t => .found t
-              | none => .missing
-      match prev with
-      | .skip => pure ()
-      | .missing => throw (if mined then .chainRevoked else .invalidTx)
-      | .found pt =>
-        let some o := pt.outs[i.idx]? | throw .invalidTx
-        if o.cls = .raw then pure ()
-        else match AMap.get c.own o.addr with
-          | some (w, ch) =>
-            if ready.contains w then
-              tr := { tr with hasBindingIn := o.cls.isBinding,
-                                relIn := tr.relIn ++ [{ index := cur, out := o, wallet := w, change := ch }] }
-          | none => pure ()
-  let mut oi := 0
-  for o in tx.outs do
-    let cur := oi
-    oi := oi + 1
-    if o.cls = .raw then pure ()
-    else match AMap.get c.own o.addr with
-      | some (w, ch) =>
-        if ready.contains w then
-          tr := { tr with hasBindingOut := o.cls.isBinding,
-                            relOut := tr.relOut ++ [{ index := cur, out := o, wallet := w, change := ch }] }
-      | none => pure ()
-  if tr.relIn.isEmpty && tr.relOut.isEmpty then return none
-  if tr.hasBindingIn && tr.hasBindingOut then throw .bothBinding
-  pure (some tr)
+  let tr ← if tx.cb then pure { tx := tx } else foldIdxM (filterIn c s mined inBlk ready) tx.ins 0 { tx := tx }
+  let tr := foldIdx (filterOut c ready) tx.outs 0 tr
+  if tr.relIn.isEmpty && tr.relOut.isEmpty then pure none
+  else if tr.hasBindingIn && tr.hasBindingOut then throw .bothBinding
+  else pure (some tr)
 
 /-- putSyncedTo -/
-def putSyncedTo (s : Store) (blk : BlockMeta) : M Store := do
+def putSyncedTo (s : Store) (blk : BlockMeta) : M Store :=
   if blk.height > 0 && (AMap.get s.sync (blk.height - 1)).isNone then throw (.other "syncedTo too great")
-  if (AMap.get s.sync (blk.height + 1)).isSome then throw (.other "syncedTo smaller than last")
-  pure { s with sync := AMap.put s.sync blk.height blk.hash, syncedTo := blk.height }
+  else if (AMap.get s.sync (blk.height + 1)).isSome then throw (.other "syncedTo smaller than last")
+  else pure { s with sync := AMap.put s.sync blk.height blk.hash, syncedTo := blk.height }
+
+/-- filterBlock, first loop: filterTx on every transaction of the block (against the store as it is
+    when the block starts), collecting the relevant records with their block-file location -/
+def filterTxs (c : Ctx) (s : Store) (ready : List Wid) (bid : BlkId) :
+    List Tx → List Tx → Nat → List TxRec → M (List TxRec)
+  | [], _, _, acc => pure acc
+  | tx :: rest, seen, ti, acc => do
+    let r ← filterTxRel c s tx true (seen ++ [tx]) ready
+    match r with
+    | some tr => filterTxs c s ready bid rest (seen ++ [tx]) (ti + 1) (acc ++ [{ tr with loc := (bid, ti) }])
+    | none => filterTxs c s ready bid rest (seen ++ [tx]) (ti + 1) acc
+
+/-- UpdateMinedBalances: write the working balances back -/
+def mergeBalances (bals : Bals) (m : Bals) : Bals := bals.foldr (fun e m => AMap.put m e.1 e.2) m
+
+/-- onRelevantBlockConnected -/
+def applyRelevant (c : Ctx) (s : Store) (ready : List Wid) (bm : BlockMeta) (relevant : List TxRec) : M Store :=
+  if relevant.isEmpty then pure s
+  else do
+    -- FetchAllMinedBalance restricted to ready wallets
+    let bals : Bals := s.balance.filter (fun e => ready.contains e.1)
+    let (s, bals) ← relevant.foldlM (fun sb tr => addRelevantMined c.p c.own sb.1 sb.2 tr bm) (s, bals)
+    pure { s with balance := mergeBalances bals s.balance }
+
+/-- filterBlock: the non-coinbase transactions of the block that filterTx found irrelevant -/
+def unrelatedTxs (txs : List Tx) (relevant : List TxRec) : List Tx :=
+  txs.filter (fun t => !t.cb && !relevant.any (fun tr => tr.tx.id = t.id))
+
+/-- filterBlock → TxStore.RemoveUnminedConflicts: an irrelevant transaction of the block may still
+    double-spend a pending one (removeDoubleSpends on a record without relevance lists) -/
+def purgeUnrelated (own : Own) (s : Store) (txs : List Tx) : Store :=
+  txs.foldl (fun s t => removeDoubleSpends own s { tx := t }) s
 
 /-- filterBlock + onRelevantBlockConnected + SetSyncedTo; returns the confirmed relevant tx ids -/
-def filterBlock (c : Ctx) (s : Store) (ready : List Wid) (b : Block) : M (Store × List TxId) := do
+def filterBlock (c : Ctx) (s : Store) (ready : List Wid) (b : Block) : M (Store × List TxId) :=
   let bm : BlockMeta := ⟨b.height, b.id⟩
-  let some onChain := c.node.blockAt b.height | throw (.other "FetchBlockLocByHeight")
-  if onChain.id ≠ b.id then throw .chainRevoked
-  let mut relevant : List TxRec := []
-  if !ready.isEmpty then
-    let mut seen : List Tx := []
-    let mut ti := 0
-    for tx in b.txs do
-      let cur := ti
-      ti := ti + 1
-      seen := seen ++ [tx]
-      match ← filterTxRel c s tx true seen ready with
-      | some tr => relevant := relevant ++ [{ tr with loc := (b.id, cur) }]
-      | none => pure ()
-  let confirmed := relevant.map (·.tx.id)
-  let mut s := s
-  if !relevant.isEmpty then
-    -- FetchAllMinedBalance restricted to ready wallets
-    let mut bals : AMap.T Wid Nat := s.balance.filter (fun e => ready.contains e.1)
-    for tr in relevant do
-      let (s', bals') ← addRelevantMined c.p c.own s bals tr bm
-      s := s'
-      bals := bals'
-    -- UpdateMinedBalances
-    s := { s with balance := bals.foldl (fun m e => AMap.put m e.1 e.2) s.balance }
-  let s2 ← putSyncedTo s bm
-  pure (s2, confirmed)
+  match c.node.blockAt b.height with
+  | none => throw (.other "FetchBlockLocByHeight")
+  | some onChain =>
+    if onChain.id ≠ b.id then throw .chainRevoked
+    else do
+      let relevant ← if ready.isEmpty then pure [] else filterTxs c s ready b.id b.txs [] 0 []
+      let s ← applyRelevant c s ready bm relevant
+      let s := purgeUnrelated c.own s (if ready.isEmpty then [] else unrelatedTxs b.txs relevant)
+      let s2 ← putSyncedTo s bm
+      pure (s2, relevant.map (·.tx.id))
 
 -- ------------------------------------------------------------------ Rollback (txstore.go)
 
@@ -478,97 +571,125 @@ def rollbackAddr (s : Store) (w : Wid) (o : Out) (curHeight : Nat) : Store :=
   | some h => if curHeight > 0 && h = curHeight then { s with addrs := AMap.put s.addrs ak 0 } else s
   | none => s
 
+/-- Rollback: the part shared by the coinbase and the ordinary TxOut loops once the credit is gone:
+    drop the unspent entry (and its amount), repair the address record -/
+def rollbackOwnedOut (id : TxId) (blk : BlockMeta) (sb : Store × Bals) (i : Nat) (o : Out) (w : Wid) :
+    M (Store × Bals) :=
+  if (AMap.get sb.1.unspent (w, id, i)).isSome then
+    if getBal sb.2 w < o.amt then throw (.other "balance underflow")
+    else pure (rollbackAddr { sb.1 with unspent := AMap.erase sb.1.unspent (w, id, i) } w o blk.height,
+               AMap.put sb.2 w (getBal sb.2 w - o.amt))
+  else pure (rollbackAddr sb.1 w o blk.height, sb.2)
+
+/-- Rollback, coinbase: body of the TxOut loop; the accumulator also collects the removed credits -/
+def rollbackCbOut (c : Ctx) (id : TxId) (blk : BlockMeta) (acc : (Store × Bals) × List (TxId × Nat))
+    (i : Nat) (o : Out) : M ((Store × Bals) × List (TxId × Nat)) :=
+  let ck : CredKey := ⟨id, blk, i⟩
+  match AMap.get acc.1.1.credits ck with
+  | none => pure acc
+  | some _ =>
+    let s := { acc.1.1 with credits := AMap.erase acc.1.1.credits ck }
+    if o.cls = .raw then throw (.other "parse")
+    else match AMap.get c.own o.addr with
+      | none => pure ((s, acc.1.2), acc.2 ++ [(id, i)])
+      | some (w, _) => do
+        let sb ← rollbackOwnedOut id blk (s, acc.1.2) i o w
+        -- the deposit record of a staking / binding coinbase output goes with its credit (a coinbase
+        -- never returns to the pending set, so no unmined record is written)
+        if o.cls.isStaking || o.cls.isBinding then
+          pure (({ sb.1 with game := AMap.erase sb.1.game ⟨w, o.cls.isBinding, false, id, blk.height, i⟩ }, sb.2),
+                acc.2 ++ [(id, i)])
+        else pure (sb, acc.2 ++ [(id, i)])
+
+/-- Rollback, ordinary tx: body of the TxIn loop -/
+def rollbackIn (c : Ctx) (id : TxId) (blk : BlockMeta) (sb : Store × Bals) (cur : Nat) (i : Inp) : M (Store × Bals) :=
+  let s := { sb.1 with pendIns := putPendIn sb.1.pendIns (i.tx, i.idx) id }
+  let dk : CredKey := ⟨id, blk, cur⟩
+  match AMap.get s.debits dk with
+  | none => pure (s, sb.2)
+  | some (_, ck) =>
+    let s := { s with debits := AMap.erase s.debits dk }
+    match AMap.get s.credits ck with
+    | none => throw (.other "unspend non-existent credit")
+    | some cr =>
+      let cr' := { cr with spent := false, spentBy := none }
+      let s := { s with credits := AMap.put s.credits ck cr' }
+      match AMap.get c.own cr'.sh with
+      | none => pure (s, sb.2)
+      | some (w, _) =>
+        let s := { s with unspent := AMap.put s.unspent (w, i.tx, i.idx) ck.blk }
+        let bals := AMap.put sb.2 w (getBal sb.2 w + cr'.amt)
+        if cr'.cls = .staking || cr'.cls = .binding then
+          let gk : GameKey := ⟨w, cr'.cls = .binding, true, i.tx, ck.blk.height, i.idx⟩
+          if (AMap.get s.game gk).isNone then throw (.other "unwithdraw game not found")
+          else pure ({ s with game := AMap.put (AMap.erase s.game gk) { gk with withdrawn := false } () }, bals)
+        else pure (s, bals)
+
+/-- Rollback, ordinary tx: body of the TxOut loop -/
+def rollbackOut (c : Ctx) (id : TxId) (blk : BlockMeta) (sb : Store × Bals) (i : Nat) (o : Out) : M (Store × Bals) :=
+  let ck : CredKey := ⟨id, blk, i⟩
+  match AMap.get sb.1.credits ck with
+  | none => pure sb
+  | some cr =>
+    let s := { sb.1 with credits := AMap.erase sb.1.credits ck,
+                         pendCred := AMap.put sb.1.pendCred (id, i) { cr with spentBy := none } }   -- first 45 bytes (flags kept)
+    if o.cls = .raw then throw (.other "parse")
+    else match AMap.get c.own o.addr with
+      | none => pure (s, sb.2)
+      | some (w, _) => do
+        let sb ← rollbackOwnedOut id blk (s, sb.2) i o w
+        if o.cls.isStaking || o.cls.isBinding then
+          pure ({ sb.1 with game := AMap.erase sb.1.game ⟨w, o.cls.isBinding, false, id, blk.height, i⟩,
+                            pendGame := AMap.put sb.1.pendGame (w, o.cls.isBinding, id, i) () }, sb.2)
+        else pure sb
+
 /-- roll back one transaction record of block `blk` (the body of the inner loop of Rollback).
     Returns the new store, balances and the coinbase credits removed. -/
-def rollbackTx (c : Ctx) (s : Store) (bals : AMap.T Wid Nat) (blk : BlockMeta) (id : TxId) :
-    M (Store × AMap.T Wid Nat × List (TxId × Nat)) := do
-  let some loc := AMap.get s.txrecs (id, blk) | return (s, bals, [])    -- readTxRecordLoc fails: continue
-  let some tx := c.node.txByFileLoc loc | throw (.other "FetchTxByFileLoc")
-  let mut s := { s with txrecs := AMap.erase s.txrecs (id, blk) }
-  let mut bals := bals
-  if tx.cb then
-    let mut removed : List (TxId × Nat) := []
-    let mut oi := 0
-    for o in tx.outs do
-      let i := oi
-      oi := oi + 1
-      let ck : CredKey := ⟨id, blk, i⟩
-      if (AMap.get s.credits ck).isNone then continue
-      s := { s with credits := AMap.erase s.credits ck }
-      removed := removed ++ [(id, i)]
-      if o.cls = .raw then throw (.other "parse")
-      let some (w, _) := AMap.get c.own o.addr | continue
-      if (AMap.get s.unspent (w, id, i)).isSome then
-        s := { s with unspent := AMap.erase s.unspent (w, id, i) }
-        if getBal bals w < o.amt then throw (.other "balance underflow")
-        bals := AMap.put bals w (getBal bals w - o.amt)
-      s := rollbackAddr s w o blk.height
-    return (s, bals, removed)
-  -- non-coinbase: back to the pending set (after the D1 fix: a readable pending record)
-  s := { s with pending := AMap.put s.pending id tx }
-  let mut ii := 0
-  for i in tx.ins do
-    let cur := ii
-    ii := ii + 1
-    s := { s with pendIns := putPendIn s.pendIns (i.tx, i.idx) id }
-    let dk : CredKey := ⟨id, blk, cur⟩
-    let some (_, ck) := AMap.get s.debits dk | continue
-    s := { s with debits := AMap.erase s.debits dk }
-    let some cr := AMap.get s.credits ck | throw (.other "unspend non-existent credit")
-    let cr' := { cr with spent := false, spentBy := none }
-    s := { s with credits := AMap.put s.credits ck cr' }
-    let some (w, _) := AMap.get c.own cr'.sh | continue
-    s := { s with unspent := AMap.put s.unspent (w, i.tx, i.idx) ck.blk }
-    bals := AMap.put bals w (getBal bals w + cr'.amt)
-    if cr'.cls = .staking || cr'.cls = .binding then
-      let gk : GameKey := ⟨w, cr'.cls = .binding, true, i.tx, ck.blk.height, i.idx⟩
-      if (AMap.get s.game gk).isNone then throw (.other "unwithdraw game not found")
-      s := { s with game := AMap.put (AMap.erase s.game gk) { gk with withdrawn := false } () }
-  let mut oi := 0
-  for o in tx.outs do
-    let i := oi
-    oi := oi + 1
-    let ck : CredKey := ⟨id, blk, i⟩
-    let some cr := AMap.get s.credits ck | continue
-    s := { s with credits := AMap.erase s.credits ck }
-    s := { s with pendCred := AMap.put s.pendCred (id, i) { cr with spentBy := none } }   -- first 45 bytes (flags kept)
-    if o.cls = .raw then throw (.other "parse")
-    let some (w, _) := AMap.get c.own o.addr | continue
-    if (AMap.get s.unspent (w, id, i)).isSome then
-      s := { s with unspent := AMap.erase s.unspent (w, id, i) }
-      if getBal bals w < o.amt then throw (.other "balance underflow")
-      bals := AMap.put bals w (getBal bals w - o.amt)
-    s := rollbackAddr s w o blk.height
-    if o.cls.isStaking || o.cls.isBinding then
-      s := { s with game := AMap.erase s.game ⟨w, o.cls.isBinding, false, id, blk.height, i⟩ }
-      s := { s with pendGame := AMap.put s.pendGame (w, o.cls.isBinding, id, i) () }
-  pure (s, bals, [])
+def rollbackTx (c : Ctx) (s : Store) (bals : Bals) (blk : BlockMeta) (id : TxId) :
+    M (Store × Bals × List (TxId × Nat)) :=
+  match AMap.get s.txrecs (id, blk) with
+  | none => pure (s, bals, [])                                 -- readTxRecordLoc fails: continue
+  | some loc =>
+    match c.node.txByFileLoc loc with
+    | none => throw (.other "FetchTxByFileLoc")
+    | some tx =>
+      let s := { s with txrecs := AMap.erase s.txrecs (id, blk) }
+      if tx.cb then do
+        let r ← foldIdxM (rollbackCbOut c id blk) tx.outs 0 ((s, bals), [])
+        pure (r.1.1, r.1.2, r.2)
+      else do
+        -- non-coinbase: back to the pending set (after the D1 fix: a readable pending record)
+        let s := { s with pending := AMap.put s.pending id tx }
+        let sb ← foldIdxM (rollbackIn c id blk) tx.ins 0 (s, bals)
+        let sb ← foldIdxM (rollbackOut c id blk) tx.outs 0 sb
+        pure (sb.1, sb.2, [])
+
+/-- accumulator of Rollback's outer loop -/
+structure RbAcc where
+  s : Store
+  bals : Bals
+  cb : List (TxId × Nat) := []
+  heights : List Nat := []
+
+/-- Rollback: one iteration of the outer loop (block record at height `cur`, transactions in reverse) -/
+def rollbackBlockAt (c : Ctx) (acc : RbAcc) (cur : Nat) : M RbAcc :=
+  match AMap.get acc.s.blocks cur with
+  | none => pure acc
+  | some (bh, txs) =>
+    txs.reverse.foldlM (fun (a : RbAcc) id => do
+      let (s', bals', rem) ← rollbackTx c a.s a.bals ⟨cur, bh⟩ id
+      pure { a with s := s', bals := bals', cb := a.cb ++ rem })
+      { acc with heights := acc.heights ++ [cur] }
 
 /-- TxStore.Rollback(height): undo every block record from the synced tip down to `height` -/
 def rollback (c : Ctx) (s : Store) (height : Nat) : M Store := do
-  let mut s := s
-  let mut bals : AMap.T Wid Nat := s.balance      -- FetchAllMinedBalance
-  let mut cbRemoved : List (TxId × Nat) := []
-  let mut heights : List Nat := []
-  -- for curHeight := syncedTo; height <= curHeight; curHeight--
-  for k in List.range (s.syncedTo + 1 - height) do
-    let cur := s.syncedTo - k
-    let some (bh, txs) := AMap.get s.blocks cur | continue
-    heights := heights ++ [cur]
-    for id in txs.reverse do
-      let (s', bals', rem) ← rollbackTx c s bals ⟨cur, bh⟩ id
-      s := s'
-      bals := bals'
-      cbRemoved := cbRemoved ++ rem
-  for h in heights do
-    s := { s with blocks := AMap.erase s.blocks h }
+  -- for curHeight := syncedTo; height <= curHeight; curHeight--      (bals = FetchAllMinedBalance)
+  let hs := (List.range (s.syncedTo + 1 - height)).map (fun k => s.syncedTo - k)
+  let acc ← hs.foldlM (rollbackBlockAt c) { s := s, bals := s.balance }
+  let s := acc.heights.foldl (fun s h => { s with blocks := AMap.erase s.blocks h }) acc.s
   -- pending spenders of removed coinbase outputs are conflicts
-  for op in cbRemoved do
-    for sp in (AMap.get s.pendIns op).getD [] do
-      match AMap.get s.pending sp with
-      | some t => s := removeConflict c.own (s.pending.length + 1) s t
-      | none => pure ()
-  pure { s with balance := bals.foldl (fun m e => AMap.put m e.1 e.2) s.balance }
+  let s := acc.cb.foldl (purgeSpenders c.own) s
+  pure { s with balance := mergeBalances acc.bals s.balance }
 
 /-- resetSyncedTo -/
 def resetSyncedTo (s : Store) (height : Nat) : Store :=
@@ -576,71 +697,105 @@ def resetSyncedTo (s : Store) (height : Nat) : Store :=
   { s with sync := sync, syncedTo := if s.syncedTo > height then height else s.syncedTo }
 
 /-- disconnectBlock -/
-def disconnectBlock (c : Ctx) (s : Store) (height : Nat) : M Store := do
+def disconnectBlock (c : Ctx) (s : Store) (height : Nat) : M Store :=
   if height = 0 then throw (.other "genesis")
-  if height > s.syncedTo then return s
-  let s1 ← rollback c s height
-  let s := resetSyncedTo s1 (height - 1)
-  -- importing wallets: pull the cursor back
-  let status := s.status.map (fun e =>
-    match e.2.synced with
-    | some h => if h > height - 1 then (e.1, { e.2 with synced := some (height - 1) }) else e
-    | none => e)
-  pure { s with status := status }
+  else if height > s.syncedTo then pure s
+  else do
+    let s1 ← rollback c s height
+    let s := resetSyncedTo s1 (height - 1)
+    -- importing wallets: pull the cursor back
+    let status := s.status.map (fun e =>
+      match e.2.synced with
+      | some h => if h > height - 1 then (e.1, { e.2 with synced := some (height - 1) }) else e
+      | none => e)
+    pure { s with status := status }
+
+/-- reorg step 1: walk the new branch back until it is no higher than the wallet's tip.
+    Returns the block reached and the blocks to connect (ascending). -/
+def alignNew (c : Ctx) (curH : Nat) : Nat → Block → List Block → M (Block × List Block)
+  | 0, nb, tc => pure (nb, tc)
+  | fuel + 1, nb, tc =>
+    if curH < nb.height then
+      match c.node.fetchBlock nb.prev with
+      | none => throw .chainRevoked
+      | some pb => alignNew c curH fuel pb (nb :: tc)
+    else pure (nb, tc)
+
+/-- reorg step 2a: disconnect the wallet's blocks above the height reached on the new branch -/
+def disconnectDown (c : Ctx) (nbH : Nat) : Nat → Store → Nat → List Nat → M (Store × Nat × List Nat)
+  | 0, s, curH, rolled => pure (s, curH, rolled)
+  | fuel + 1, s, curH, rolled =>
+    if curH > nbH then do
+      let s' ← disconnectBlock c s curH
+      disconnectDown c nbH fuel s' (curH - 1) (rolled ++ [curH])
+    else pure (s, curH, rolled)
+
+/-- state of reorg step 2b -/
+structure Walk where
+  s : Store
+  prevH : Nat
+  prevHash : BlkId
+  tail : Block
+  tc : List Block
+  rolled : List Nat
+
+/-- reorg step 2b: walk both branches back in lock step until the new branch's block points at the
+    wallet's synced block below. `false` = fuel exhausted before the common ancestor was reached. -/
+def walkBack (c : Ctx) : Nat → Walk → M (Walk × Bool)
+  | 0, w => pure (w, false)
+  | fuel + 1, w =>
+    if w.tail.prev ≠ w.prevHash then do
+      let s ← disconnectBlock c w.s (w.prevH + 1)
+      if w.prevH = 0 then throw (.other "prev synced block not found")
+      else match AMap.get s.sync (w.prevH - 1) with
+        | none => throw (.other "prev synced block not found")
+        | some ph' =>
+          match c.node.fetchBlock w.tail.prev with
+          | none => throw .chainRevoked
+          | some pb =>
+            walkBack c fuel { s := s, prevH := w.prevH - 1, prevHash := ph', tail := pb,
+                              tc := w.tail :: w.tc, rolled := w.rolled ++ [w.prevH + 1] }
+    else pure (w, true)
+
+/-- reorg step 3: connect -/
+def connectAll (c : Ctx) (ready : List Wid) :
+    List Block → Store → List (Nat × List TxId) → M (Store × List (Nat × List TxId))
+  | [], s, added => pure (s, added)
+  | b :: rest, s, added => do
+    let (s', conf) ← filterBlock c s ready b
+    connectAll c ready rest s' (added ++ [(b.height, conf)])
+
+/-- reorg step 2: roll the wallet back to the fork point -/
+def reorgDisconnect (c : Ctx) (s : Store) (best : BlockMeta) (nb : Block) (tc : List Block) :
+    M (Store × List Nat × List Block) :=
+  if best.hash = nb.id then pure (s, [], tc)
+  else do
+    let (s, curH, rolled) ← disconnectDown c nb.height (best.height + 1) s best.height []
+    match AMap.get s.sync curH with
+    | none => throw (.other "synced block not found")
+    | some bh =>
+      if bh = nb.id then pure (s, rolled, tc)
+      else if curH = 0 then throw (.other "prev synced block not found")
+      else match AMap.get s.sync (curH - 1) with
+        | none => throw (.other "prev synced block not found")
+        | some ph => do
+          let (w, done) ← walkBack c (best.height + 2)
+            { s := s, prevH := curH - 1, prevHash := ph, tail := nb, tc := tc, rolled := rolled }
+          if !done then throw (.other "walk-back fuel exhausted")
+          else do
+            let s ← disconnectBlock c w.s (w.prevH + 1)
+            pure (s, w.rolled ++ [w.prevH + 1], w.tail :: w.tc)
 
 /-- reorg (ntfnshandler.go). Returns store, rolled-back heights, (height, confirmed ids) of connected blocks. -/
 def reorg (c : Ctx) (s : Store) (best : BlockMeta) (newBest : Block) :
     M (Store × List Nat × List (Nat × List TxId)) := do
-  let mut s := s
-  let mut toConnect : List Block := []
-  let mut nb := newBest
-  let mut cur := best
-  let mut rolled : List Nat := []
   -- step 1: align heights (walk the new branch back)
-  for _ in List.range (newBest.height + 1) do
-    if cur.height < nb.height then
-      toConnect := nb :: toConnect
-      let some pb := c.node.fetchBlock nb.prev | throw .chainRevoked
-      nb := pb
-  if cur.hash ≠ nb.id then
-    for _ in List.range (best.height + 1) do
-      if cur.height > nb.height then
-        s ← disconnectBlock c s cur.height
-        rolled := rolled ++ [cur.height]
-        cur := { cur with height := cur.height - 1 }
-    let some bh := AMap.get s.sync cur.height | throw (.other "synced block not found")
-    cur := ⟨cur.height, bh⟩
-    if cur.hash ≠ nb.id then
-      if cur.height = 0 then throw (.other "prev synced block not found")
-      let some ph := AMap.get s.sync (cur.height - 1) | throw (.other "prev synced block not found")
-      let mut prevH := cur.height - 1
-      let mut prevHash := ph
-      let mut tail := nb
-      let mut done := false
-      for _ in List.range (best.height + 2) do
-        if !done then
-          if tail.prev ≠ prevHash then
-            s ← disconnectBlock c s (prevH + 1)
-            rolled := rolled ++ [prevH + 1]
-            toConnect := tail :: toConnect
-            if prevH = 0 then throw (.other "prev synced block not found")
-            let some ph' := AMap.get s.sync (prevH - 1) | throw (.other "prev synced block not found")
-            prevH := prevH - 1
-            prevHash := ph'
-            let some pb := c.node.fetchBlock tail.prev | throw .chainRevoked
-            tail := pb
-          else
-            done := true
-      if !done then throw (.other "walk-back fuel exhausted")
-      s ← disconnectBlock c s (prevH + 1)
-      rolled := rolled ++ [prevH + 1]
-      toConnect := tail :: toConnect
+  let (nb, tc) ← alignNew c best.height (newBest.height + 1) newBest []
+  -- step 2: disconnect down to the common ancestor
+  let (s, rolled, tc) ← reorgDisconnect c s best nb tc
+  -- step 3: connect
   let ready := readyWallets s c.wallets
-  let mut added : List (Nat × List TxId) := []
-  for b in toConnect do
-    let (s', conf) ← filterBlock c s ready b
-    s := s'
-    added := added ++ [(b.height, conf)]
+  let (s, added) ← connectAll c ready tc s []
   pure (s, rolled, added)
 
 /-- MaxMemPoolExpire -/
